@@ -17,7 +17,7 @@ fn readiness<T: Dom>(outer: VK, inner: Option<VK>, k: usize, warm: Warm) {
     let name = match &inner { Some(i) => format!("{} over {}", outer.name(), i.name()), None => outer.name() };
     let mut was_ready = false;
     for t in 0..k {
-        let x = T::input(&format!("x{t}"));
+        let x = T::input(&format!("{}x{t}", if positive { "pos" } else { "" }));
         if positive { T::assume(lt(T::zero(), x)); }
         v.update(x);
         let o = v.last();
@@ -92,13 +92,25 @@ pub fn units(tier: Tier, seed: u64) -> Vec<Unit> {
         if matches!(i, VK::LnReturn | VK::Drawdown) && matches!(o, VK::LnReturn | VK::Drawdown | VK::Roc(_)) { continue; }
         u.push(unit!(format!("C08/chain/{} over {}/k=7", o.name(), i.name()), readiness(o.clone(), Some(i.clone()), 7usize, Warm::Unspecified)));
     }
+    // larger windows: the documented first-output step and finiteness along the comparison path of a pseudo-random sample
+    let first_big = u.len();
+    for &n in &(if tier == Tier::Quick { vec![8usize, 16, 33, 64] } else { vec![7usize, 8, 12, 16, 32, 33, 64, 65, 100] }) {
+        for vk in views_for(n) {
+            if vk.is_leaf() { continue; }
+            let wl = match &vk { VK::Roofing(a, b) => a + b + 1, _ => n };
+            let k = wl + 4;
+            let w = documented(&vk);
+            u.push(unit!(format!("C08/readiness/{}/k={k}/sample-path", vk.name()), readiness(vk.clone(), None, k, w.clone())));
+        }
+    }
+    for x in u.iter_mut().skip(first_big) { x.concolic = Some(seed + 11); x.max_decisions = 60000; }
     for x in u.iter_mut() { x.panic_is_violation = true; x.path_cap = 6000; x.branch_nl_timeout_ms = Some(1000); x.budget_s = if tier == Tier::Quick { 60.0 } else { 600.0 }; }
     u
 }
 pub fn meta() -> Meta {
     Meta {
         functions: vec!["every view of the crate ::{new,update,last} (catalogue in engine/src/views.rs), over Echo, over a never-ready leaf, and in seeded two-level chains"],
-        bounds: "N in {1,2,3} (quick) / {1..6} (thorough), raised to the view's minimum (CTI/NET/PFE/CyberCycle/TrendFlex/ReFlex 3, EFT/LaguerreRSI/Roofing 2); k = 2N+3 (N+3 capped at 8 for heavily branching views); inputs unconstrained reals, positive for Drawdown/LnReturn; 24 (quick) / 120 (thorough) VERIF_SEED-selected two-level chains at N=2, k=7; all comparison outcomes up to a cap of 6000 paths per unit (reported if hit)",
+        bounds: "N in {1,2,3} (quick) / {1..6} (thorough), raised to the view's minimum (CTI/NET/PFE/CyberCycle/TrendFlex/ReFlex 3, EFT/LaguerreRSI/Roofing 2); k = 2N+3 (N+3 capped at 8 for heavily branching views); inputs unconstrained reals, positive for Drawdown/LnReturn; 24 (quick) / 120 (thorough) VERIF_SEED-selected two-level chains at N=2, k=7; all comparison outcomes up to a cap of 6000 paths per unit (reported if hit); in addition every view at N in {8,16,33,64} (quick) / {7,8,12,16,32,33,64,65,100}, k=N+4, along the comparison path of a pseudo-random sample",
         outside: vec!["overflow to ±Inf in f64 from large magnitudes", "streams longer than k ('for ever' is argued from the monotone structure, not checked)", "chains deeper than two"],
         assumptions: vec!["a crate panic (including its own finiteness debug_assert!) on a feasible path counts as a violation of 'returns a finite value'", "division by a symbolic zero yields the IEEE special (NaN/±Inf), which is then what `is_finite` sees"],
     }
